@@ -15,7 +15,7 @@ from .common import doc
 MODES = ("async", "thread", "process")
 
 
-def make(n: int, sym_dur: bool) -> Any:
+def make(n: int, sym_dur: bool, sym_modes: bool = True, sym_generic: bool = False) -> Any:
     def mk() -> Any:
         set_pools()
 
@@ -47,13 +47,15 @@ def make(n: int, sym_dur: bool) -> Any:
             hold = 1 + sym.choice("hold_depth", maxd)  # 1..maxd
             held = sorted(i for i in used if depth[i] == hold)
             modes = {}
+            generic = {}
             for i in range(n):
-                modes[i] = MODES[sym.choice("mode%d" % i, 3)] if i in held else "async"
+                modes[i] = MODES[sym.choice("mode%d" % i, 3)] if (i in held and sym_modes) else "async"
+                generic[i] = bool(sym.choice("generic%d" % i, 2)) if (i in held and sym_generic) else False
             with untraced():
                 nodes = [Node("N0")]
                 for i in range(1, n):
                     nodes.append(Node("N%d" % i, tuple(("p%d" % j, In("N%d" % b)) for j, b in enumerate(binds[i])),
-                                      mode=modes[i]))
+                                      mode=modes[i], generic=generic[i]))
                 spec = Spec("plain%d" % n, nodes, "N0", "N%d" % out)
             beh = Behaviour(sym, spec, sym_dur=sym_dur, dur_nodes={"N%d" % i for i in used if depth[i] < hold})
             cfg = Cfg(hold={"N%d" % i for i in held}, rev_taskset=False)
@@ -77,9 +79,12 @@ def make(n: int, sym_dur: bool) -> Any:
                 goals.append("siblings_held")
             if len({modes[i] for i in held}) > 1:
                 goals.append("mixed_modes_held")
+            if any(generic[i] and modes[i] != "async" for i in held):
+                goals.append("generic_sync_node_held")
             info = {"digest": [obs.kind, sorted(started), [(i.node, i.k) for i in obs.rc.invs]],
                     "goals": goals,
                     "summary": {"binds": binds, "hold_depth": hold, "held": held, "modes": [modes[i] for i in held],
+                                "generic": [generic[i] for i in held],
                                 "started": sorted(started)}}
             return (label or "ok"), info
 
@@ -97,6 +102,17 @@ register(Job("C06", "plain_n4", make(4, False), tier="quick", budget_s=500,
              goals=("siblings_held", "mixed_modes_held"),
              doc={**D, "symbolic": ["binding selector of every parameter (36 programs)", "hold depth", "mode of each held node in {async,thread,process}"],
                   "bounds": "n = 4 nodes, <= 2 Input parameters per node, durations below the held depth fixed to 0"}))
+register(Job("C06", "plain_n4_generic", make(4, False, True, True), tier="quick", budget_s=500,
+             parts=[{"bind2_0": a, "bind3_0": b} for a in range(2) for b in range(3)],
+             goals=("siblings_held", "generic_sync_node_held"),
+             doc={**D, "symbolic": ["binding selectors (36 programs)", "hold depth", "mode of each held node",
+                                    "whether each held node is declared through build_node (generic)"],
+                  "bounds": "n = 4 nodes, durations 0"}))
+register(Job("C06", "plain_n5_async", make(5, False, False), tier="quick", budget_s=500,
+             parts=[{"bind2_0": a, "bind3_0": b, "bind4_0": c} for a in range(2) for b in range(3) for c in range(4)],
+             goals=("siblings_held",),
+             doc={**D, "symbolic": ["binding selectors (576 programs, incl. unbalanced shapes)", "hold depth"],
+                  "bounds": "n = 5 nodes, all coroutine nodes, durations 0"}))
 register(Job("C06", "plain_n4_durations", make(4, True), tier="thorough", budget_s=1800,
              parts=[{"bind2_0": a, "bind3_0": b} for a in range(2) for b in range(3)],
              goals=("siblings_held",),
@@ -107,3 +123,21 @@ register(Job("C06", "plain_n5", make(5, False), tier="thorough", budget_s=2400,
              goals=("siblings_held", "mixed_modes_held"),
              doc={**D, "symbolic": ["binding selectors (576 programs)", "hold depth", "modes of held nodes"],
                   "bounds": "n = 5 nodes, <= 2 Input parameters per node, durations 0"}))
+
+
+# ------------------------------------------------------------------ the engine never blocks the loop thread
+def _blocking_verdict(obs: Any, ref: Any, sym: Any) -> Any:
+    from .. import verdicts as V
+
+    return V.blocking(obs)
+
+
+from .. import catalogue as _C  # noqa: E402
+from .common import auto_parts as _auto_parts, doc as _doc, engine_harness as _engine_harness  # noqa: E402
+
+register(Job("C06", "retry_backoff_does_not_block", _engine_harness(lambda: _C.retry_sibling(3, 2, False), _blocking_verdict),
+             tier="quick", budget_s=300, parts=_auto_parts(_C.retry_sibling(3, 2, False)),
+             doc=_doc("retry_sibling: a retrying node (delay 2) beside a sibling of the same depth",
+                      ["durations", "per-attempt outcomes", "task-set order"],
+                      {"oracle": "time.sleep is replaced by a recording stub during the run: any call from engine code on the "
+                                 "loop thread (which would stall every sibling for the whole back-off) is a violation"})))
